@@ -834,15 +834,31 @@ pub fn eval_io_case(t: &[&str]) -> Option<String> {
             let msgs = &t[2..2 + k];
             let tape = t[2 + k];
             let (rs, ws) = split_at("/", &t[3 + k..]);
+            // data chunks are sent twice over: as owned blocks, and (what a caller with one scratch buffer does) borrowed from
+            // one buffer that is refilled for every message; what goes over the wire must not depend on which
+            let run = |scratch_borrowed: bool| -> String {
+            let mut scratch = [0u8; 256];
             let rd = SchedReader::new(bytes_of_hex(tape), rs.iter().map(|s| rd_ev_of_str(s)).collect());
             let wr = SchedWriter::new(ws.iter().map(|s| wr_ev_of_str(s)).collect());
             let mut bus = match SerialSignBus::try_new(TestPort::new(rd, wr)) {
                 Ok(b) => b,
-                Err(_) => return Some("ER SETUP".to_string()),
+                Err(_) => return "ER SETUP".to_string(),
             };
             let mut outs = vec![];
             for m in msgs {
-                let r = guarded(|| bus.process_message(msg_of_str(m)));
+                let parts: Vec<&str> = m.split('.').collect();
+                let r = if scratch_borrowed && parts.len() == 3 && parts[0] == "SD" && parts[2].len() / 2 <= 255 {
+                    let d = bytes_of_hex(parts[2]);
+                    scratch[..d.len()].copy_from_slice(&d);
+                    let off = match msg_of_str(m) {
+                        flipdot_core::Message::SendData(o, _) => o,
+                        _ => unreachable!(),
+                    };
+                    let msg = flipdot_core::Message::SendData(off, flipdot_core::Data::try_new(&scratch[..d.len()]).expect("at most 255 bytes"));
+                    guarded(|| bus.process_message(msg))
+                } else {
+                    guarded(|| bus.process_message(msg_of_str(m)))
+                };
                 outs.push(match &r {
                     None => "PANIC".to_string(),
                     Some(Ok(reply)) => format!("OK {}", str_omsg(reply)),
@@ -850,7 +866,16 @@ pub fn eval_io_case(t: &[&str]) -> Option<String> {
                 });
             }
             let port = bus.port();
-            Some(format!("{} | {} | {}", outs.join(" ; "), hex_of_bytes(&port.wr.out), hex_of_bytes(port.rd.remaining())))
+            format!("{} | {} | {}", outs.join(" ; "), hex_of_bytes(&port.wr.out), hex_of_bytes(port.rd.remaining()))
+            };
+            let owned = run(false);
+            if msgs.iter().any(|m| m.starts_with("SD.")) {
+                let borrowed = run(true);
+                if borrowed != owned {
+                    return Some(borrowed);
+                }
+            }
+            Some(owned)
         }
         "ODS" => {
             // ODS input reply... / wsched... : the ODK bridge in front of a bus that answers each forwarded message from a
